@@ -240,12 +240,8 @@ func (pb *PrimaryBlock) UnmarshalCbor(r io.Reader) error {
 	}
 
 	if blockLen == 9 || blockLen == 11 {
-		if crcCalc, crcErr := calculateCRCBuff(crcBuff, pb.CRCType); crcErr != nil {
-			return crcErr
-		} else if crcVal, err := cboring.ReadByteString(r); err != nil {
+		if crcVal, err := checkCRCField(r, crcBuff, pb.CRCType); err != nil {
 			return err
-		} else if !bytes.Equal(crcCalc, crcVal) {
-			return fmt.Errorf("invalid CRC value: %x instead of expected %x", crcVal, crcCalc)
 		} else {
 			pb.CRC = crcVal
 		}
